@@ -71,6 +71,10 @@ class Item:
     def flagged(self):
         return self.flag
 
+    def p_between(self, lo=1, hi=3):
+        """keyword arguments with defaults: called as x.p_between(lo=2) / x.p_between(hi=1) / x.p_between(2, hi=2)"""
+        return lo <= self.p <= hi
+
     def get_p(self):
         return self.p
 
@@ -79,6 +83,41 @@ class Item:
 
     def __repr__(self):
         return f"Item<{self.tag}>"
+
+
+@symbol
+@dataclass(unsafe_hash=True)
+class VItem:
+    """value equality (dataclass eq): two distinct objects with equal fields compare equal, yet they are two objects"""
+    p: Any = 1
+    q: Any = 1
+    tag: Any = field(default=None, compare=False)
+
+    def __repr__(self):
+        return f"VItem<{self.tag}>"
+
+
+@symbol
+@dataclass(eq=False)
+class Dflt:
+    """every field has a default: Dflt() is a complete construction"""
+    k: Any = 1
+    tag: Any = None
+
+    def __repr__(self):
+        return f"Dflt<{self.tag}>"
+
+
+@symbol
+class Hand0:
+    """hand-written __init__ without parameters"""
+
+    def __init__(self):
+        self.k = 1
+        self.tag = None
+
+    def __repr__(self):
+        return "Hand0<>"
 
 
 @symbol
@@ -249,7 +288,8 @@ class Made2(View):
         return f"Made2({self.a!r},{self.b!r})"
 
 
-CLASSES = {c.__name__: c for c in (Item, Other, Base, Sub, USub, Hand, Holder, View, Made, Made2, Part, Rev)}
+CLASSES = {c.__name__: c for c in (Item, Other, Base, Sub, USub, Hand, Holder, View, Made, Made2, Part, Rev, VItem, Dflt,
+                                           Hand0)}
 
 
 # ------------------------------------------------------------------------------------------------
